@@ -86,6 +86,22 @@ func main(a, b [8]byte) ([]byte, int32) {
 	return d[0:4], r
 }
 `,
+	// several imported packages that have package-level variables: their initialisers are emitted per package
+	"imports": `package main
+
+import (
+	"crypto/aes"
+	"crypto/curve25519"
+	"crypto/hkdf"
+	"crypto/sha256"
+	"encoding/hex"
+)
+
+func main(a, b [16]byte) ([]byte, []byte, string) {
+	s := sha256.Sum256(a[:])
+	return aes.Block128(a, b), s[0:4], hex.EncodeToString(b[0:2])
+}
+`,
 	"hmac": `package main
 
 import (
@@ -238,7 +254,44 @@ func c08Child() error {
 	return nil
 }
 
+// c08Probe compiles one program n times with fresh compilers in this process and prints the distinct output hashes.
+func c08Probe(prog string, n int) error {
+	src, ok := c08Progs[prog]
+	if !ok {
+		b, err := os.ReadFile(prog)
+		if err != nil {
+			return err
+		}
+		src = string(b)
+	}
+	seen := map[string]int{}
+	for i := 0; i < n; i++ {
+		params := c08Params("default")
+		var ssa bytes.Buffer
+		params.SSAOut = nopWC{&ssa}
+		circ, _, err := compiler.New(params).Compile(src, nil)
+		if err != nil {
+			return err
+		}
+		var b bytes.Buffer
+		if err := circ.Marshal(&b); err != nil {
+			return err
+		}
+		ch, sh := sha256.Sum256(b.Bytes()), sha256.Sum256(ssa.Bytes())
+		seen[fmt.Sprintf("circ=%x ssa=%x", ch[:8], sh[:8])]++
+	}
+	for k, v := range seen {
+		fmt.Println(v, k)
+	}
+	return nil
+}
+
 func c08Main(args []string) error {
+	if len(args) == 3 && args[0] == "probe" {
+		n := 20
+		fmt.Sscan(args[2], &n)
+		return c08Probe(args[1], n)
+	}
 	if len(args) >= 1 && args[0] == "child" {
 		return c08Child()
 	}
